@@ -863,6 +863,23 @@ func errShapeClass(v reflect.Value) string {
 	switch v.Kind() {
 	case reflect.Ptr:
 		if v.IsNil() && isContainer(base) {
+			// refused because of one of eino's own types among the element types
+			// (the empty container of that type is refused too)?
+			if leaf := leafType(base); isEinoType(leaf) && base.Name() == "" {
+				var empty reflect.Value
+				if base.Kind() == reflect.Slice {
+					empty = reflect.MakeSlice(base, 0, 0)
+				} else {
+					empty = reflect.MakeMap(base)
+				}
+				x := empty.Interface()
+				if r := roundtrip(x, x); r.class == clsErrInside {
+					if isSchemaType(leaf) {
+						return "eino-schema-type"
+					}
+					return "eino-component-type"
+				}
+			}
 			return "nil-ptr-to-container"
 		}
 	case reflect.Slice, reflect.Map:
@@ -892,6 +909,18 @@ func errShapeClass(v reflect.Value) string {
 		}
 	}
 	return shapeClass(v)
+}
+
+// leafType: the type at the end of a chain of pointer / slice / array / map-value types.
+func leafType(t reflect.Type) reflect.Type {
+	for {
+		switch t.Kind() {
+		case reflect.Ptr, reflect.Slice, reflect.Array, reflect.Map:
+			t = t.Elem()
+		default:
+			return t
+		}
+	}
 }
 
 type classification struct {
